@@ -123,6 +123,9 @@ def dispatch : List String → String
       | _ => none
     if evs.any Option.isNone then "bad-op"
     else if checkTrace (evs.filterMap id) then "exclusive" else "shared"
+  | ["schema_tables", h] => runConfig h
+  | ["schema_grpc", _] => "~same"
+  | ["schema_req", _] => "~one outcome for every loading route"
   | ["config", h] => runConfig h
   | ["config_err", h] => runConfigErr h
   | ["e2e_hist", h] => runE2E h ++ " ## " ++ runE2E h
